@@ -145,7 +145,7 @@ def gen_pair(ctx, nmax):
         r.shuffle(G)
     elif kind == "near":
         eta = r.choice([1e-3, 1e-6, 1e-9, 1e-12, 1e-15])
-        G = [[p[0] * (1 + eta * r.uniform(-1, 1)), p[1] * (1 + eta * r.uniform(-1, 1))] for p in F]
+        G = [sorted([p[0] * (1 + eta * r.uniform(-1, 1)), p[1] * (1 + eta * r.uniform(-1, 1))]) for p in F]   # keeps birth <= death
         if r.random() < 0.5:
             r.shuffle(G)
     elif kind == "empty1":
@@ -286,7 +286,7 @@ def run(ctx):
         ([[0.31, 1.17], [0.05, 0.93], [0.47, 0.61], [0.2, 0.9]], [[0.2, 0.9], [0.47, 0.61], [0.31, 1.17], [0.05, 0.93]], 0.137),
     ]
     cases, lines = [], []
-    n = ctx.n(1200, 16000)
+    n = ctx.n(2500, 24000)
     for i in range(n + len(corpus)):
         if i < len(corpus):
             (F, G, sigma), kind = corpus[i], "corpus"
@@ -340,12 +340,12 @@ def run(ctx):
 def laws(ctx, nmax):
     """[T] the laws of the statement (and the definition) on the real code"""
     r = ctx.rng
-    for i in range(ctx.n(450, 6000)):
+    for i in range(ctx.n(1000, 9000)):
         F, G, kind = gen_pair(ctx, min(nmax, 10))
         C = ctx.gen.diagram(min(nmax, 10), allow_diag=True)
         if r.random() < 0.3 and F:                         # a third diagram close to the first: sharp triangle / stability cases
             eta = r.choice([1e-2, 1e-5, 1e-8])
-            C = [[p[0] * (1 + eta * r.uniform(-1, 1)), p[1] * (1 + eta * r.uniform(-1, 1))] for p in F]
+            C = [sorted([p[0] * (1 + eta * r.uniform(-1, 1)), p[1] * (1 + eta * r.uniform(-1, 1))]) for p in F]
         sigma = gen_sigma(ctx, [F, G, C])
         todo = laws_for(ctx, F, G, C, sigma)
         if i % 3 == 0:
